@@ -1,3 +1,4 @@
 package shell
 
-const c25ArgLen = 2
+// arguments of 2 bytes did not finish within 50 minutes (regexp engine interpreted on symbolic bytes)
+const c25ArgLen = 1
